@@ -39,6 +39,8 @@ type Req struct {
 type Tok struct {
 	T int    `json:"t"`
 	L string `json:"l"`
+	C uint   `json:"c"` // start column (1-based), 0 for alias dumps
+	E uint   `json:"e"` // end column (one past the last character)
 }
 
 type AliasDump struct {
@@ -326,7 +328,7 @@ func scanTexts(r Req) (resp Resp) {
 	conv := func(ts []token.Token) []Tok {
 		out := make([]Tok, 0, len(ts))
 		for _, t := range ts {
-			out = append(out, Tok{T: int(t.Type), L: t.Literal})
+			out = append(out, Tok{T: int(t.Type), L: t.Literal, C: t.Range.Start.Column, E: t.Range.End.Column})
 		}
 		return out
 	}
